@@ -21,6 +21,7 @@ func LeafAlphabet(big bool) []*Node {
 			&Node{K: NCmp, Field: f, Cmp: "<", V: Float("2.5")},
 			&Node{K: NRange, Field: f, Lo: nil, Hi: Word("z"), IncLo: false, IncHi: false},
 			&Node{K: NList, Field: f, Vals: []*Val{Word("x"), Int(2), Quoted("y z")}},
+			&Node{K: NTerm, V: RawWord("'s t'")},
 		)
 	}
 	return leaves
